@@ -53,10 +53,22 @@ func takeSnap(v *node.Node) *snap {
 			info = fmt.Sprintf("%+v", *r.PublicInfo)
 		}
 		s.records[ip] = fmt.Sprintf("key=%x info=%s offline=%v universe=%q", r.Address.PublicKey, info, r.Offline, r.Universe)
-		if sess := v.State.GetSession(ip); sess != nil {
-			enc := sess.Encryption()
-			h := &state.EncryptionSessionTestHelper{EncryptionSession: enc}
-			s.sessions[ip] = fmt.Sprintf("enc=%p up=%v in=%x out=%x mtu=%d", enc, enc.IsSetUp(), h.InKey(), h.OutKey(), sess.TunMTU())
+		// Looked at without touching: asking the state for a session marks it as used and
+		// asking a session for its encryption creates one - both would keep V from ever
+		// forgetting a router, which the shipped cleaner does after a minute of silence.
+		if sess, enc := v.State.VerifPeekSession(ip); sess != nil {
+			if enc == nil || !enc.IsSetUp() {
+				// (an empty encryption object that some code path created on demand holds no
+				// keys: the same state as none at all)
+				// A session without keys and without a reported MTU holds nothing the statement
+				// lists: it counts like no session (processing any ping creates such an object).
+				if sess.TunMTU() != 0 {
+					s.sessions[ip] = fmt.Sprintf("enc=not set up mtu=%d", sess.TunMTU())
+				}
+			} else {
+				h := &state.EncryptionSessionTestHelper{EncryptionSession: enc}
+				s.sessions[ip] = fmt.Sprintf("enc=%p up=%v in=%x out=%x mtu=%d", enc, enc.IsSetUp(), h.InKey(), h.OutKey(), sess.TunMTU())
+			}
 		}
 	}
 	for _, en := range v.Router.Table().VerifEntries() {
@@ -262,17 +274,26 @@ func run(e *core.Env) {
 	// trial presents a tampered copy and demands an unchanged snapshot.
 	trial := func(kind, what string, from *simnet.Link, data []byte, ignoreExpiry bool) {
 		before := takeSnap(V)
+		if e.Trace {
+			e.Logf("trial %s %s at %s", kind, what, time.Now().Format("15:04:05.000"))
+		}
 		inject(from, data)
 		after := takeSnap(V)
 		ms.CheckPanics("worker-panic")
 		if d := before.diff(after, ignoreExpiry); d != "" {
-			e.Fail("state-changed-by-"+what+"/"+kind, "a %s %s ping from X changed V's state: %s", what, kind, d)
+			cls := "state-changed-by-" + what + "/" + kind
+			if what == "replayed-after-session-expiry" {
+				cls = "state-changed-by-" + what
+			}
+			e.Fail(cls, "a %s %s ping changed V's state: %s", what, kind, d)
 		}
 		e.Case(0x07, uint64(len(kind)), uint64(len(what)), uint64(len(data)), uint64(data[len(data)/2]))
 	}
 
 	var library [][]byte // captured pings for later replays
 	var libKinds []string
+	var libSrc []netip.Addr
+	var libSess []*state.Session // V's session object for the source when the original was delivered
 	errCool := map[string]time.Time{}
 
 	nOps := 6 + tp.Intn(20)
@@ -283,7 +304,7 @@ func run(e *core.Env) {
 		for _, p := range ms.Net.Pending() {
 			before[p] = true
 		}
-		want := tp.Intn(10)
+		want := tp.Intn(12)
 		switch want {
 		case 0:
 			// X starts a key setup as the shipped code does when it has no keys for V (any more)
@@ -324,6 +345,29 @@ func run(e *core.Env) {
 			_ = X.Router.DisconnectPing.Send(tp.Chance(1, 2), []netip.Addr{Z.IP})
 		case 9:
 			_ = X.Router.AnnouncePing.Send(V.IP)
+		case 10, 11:
+			// a router that is not V's peer reports an error to V; the ping is routed over X
+			far := Z
+			if tail && tp.Chance(2, 3) {
+				far = ms.Nodes[4+tp.Intn(2)]
+			}
+			switch tp.Intn(3) {
+			case 0:
+				_ = far.Router.ErrorPing.SendUnreachable(V.IP, X.IP)
+			case 1:
+				_ = far.Router.ErrorPing.SendGeneric(V.IP, "something else")
+			default:
+				_ = far.Router.ErrorPing.SendAccessDenied(V.IP, Z.IP, 6, 443)
+			}
+			simnet.Wait()
+			for hop := 0; hop < 4; hop++ {
+				for _, p := range ms.Net.Pending() {
+					if !before[p] && p.To.Local != V {
+						ms.Net.Deliver(p)
+					}
+				}
+				simnet.Wait()
+			}
 		}
 		_ = errCool
 		simnet.Wait()
@@ -455,11 +499,14 @@ func run(e *core.Env) {
 			}
 			library = append(library, orig)
 			libKinds = append(libKinds, kind)
+			libSrc = append(libSrc, netip.AddrFrom16([16]byte(orig[16:32])))
+			libSess = append(libSess, nil)
 
 			// ---- honest delivery of the original ----
 			pre := takeSnap(V)
 			preRoutes := V.Router.Table().VerifEntries()
 			ms.Net.Deliver(p)
+			libSess[len(libSess)-1], _ = V.State.VerifPeekSession(libSrc[len(libSrc)-1])
 			post := takeSnap(V)
 			ms.CheckPanics("worker-panic")
 			switch {
@@ -511,6 +558,39 @@ func run(e *core.Env) {
 			}
 			k := tp.Intn(len(library))
 			trial(libKinds[k], "replayed-later", linkXV, append([]byte(nil), library[k]...), libKinds[k] == "announce")
+			e.Fault("replay_old")
+		}
+		// (c'') replay after minutes of silence: V's cleaner drops idle sessions (after one
+		// minute without keys, one hour with keys) - and with a session its memory of what the
+		// source has already sent. Whether that happened is read off the identity of the
+		// session object, without touching it.
+		if len(library) > 0 && tp.Chance(1, 6) {
+			k := tp.Intn(len(library))
+			for tries := 0; tries < 4 && (libSrc[k] == X.IP || libKinds[k] == "announce"); tries++ {
+				k = tp.Intn(len(library)) // prefer a ping of a router V is not in steady contact with
+			}
+			ms.Net.RunFor(tp, time.Duration(70+tp.Intn(120))*time.Second, 60000)
+			// The adversary simply keeps trying: here it waits (in steps of 20 s, at most 7 min)
+			// for a moment at which V holds no session for the source - dropped by the cleaner
+			// and not yet re-created by the source's next announcement.
+			for w := 0; w < 21; w++ {
+				if now, _ := V.State.VerifPeekSession(libSrc[k]); now == nil {
+					break
+				}
+				ms.Net.RunFor(tp, 20*time.Second, 20000)
+			}
+			drainTun()
+			e.Fault("clock_jump")
+			// V's own traffic goes on: it holds live connection states again
+			mkPkt(Z.IP, 6, 443)
+			mkPkt(X.IP, 17, 53)
+			drainTun()
+			what := "replayed-later"
+			if now, _ := V.State.VerifPeekSession(libSrc[k]); libSess[k] != nil && now != libSess[k] {
+				what = "replayed-after-session-expiry"
+				e.Probe("replay_after_session_expiry")
+			}
+			trial(libKinds[k], what, linkXV, append([]byte(nil), library[k]...), libKinds[k] == "announce")
 			e.Fault("replay_old")
 		}
 	}
